@@ -1,7 +1,7 @@
-\* all 960 800 strings of length <= 7 over {00,01,02,03,04,80,ff}, block sizes 1..5 and 7, three styles
+\* all 137 257 strings of length <= 6 over {00,01,02,03,04,80,ff}, block sizes 1..6, three styles
 CONSTANTS Alphabet = {0, 1, 2, 3, 4, 128, 255}
-MaxLen = 7
-BlockSizes = {1, 2, 3, 4, 5, 7}
+MaxLen = 6
+BlockSizes = {1, 2, 3, 4, 5, 6}
 SPECIFICATION Spec
 CHECK_DEADLOCK FALSE
 INVARIANTS RoundTrip AcceptsExactlyTheImage FastAgrees
